@@ -1,7 +1,7 @@
 CONSTANTS
   N = 2
   K = 2
-  Ops = {"Write", "AsCFFWrite", "Subset", "MakeGlyphNames", "Layout"}
+  Ops = {"Write", "AsCFFWrite", "Subset", "MakeGlyphNames", "Layout", "ExplainGsub"}
   Variant = "headpatch"
   MaxPar = 2
   Gen = FALSE
